@@ -6,7 +6,7 @@
    the re-parse of the stream by the HTML parser is covered by the observer. *)
 From Coq Require Import List NArith Arith Bool String Permutation.
 From WMD Require Import Gen.Tables Lib.Str Lib.PyChars Lib.Escape Lib.Difflib Model.RenderTokens Model.RenderMerge Model.RenderLabelled
-     Proofs.DifflibProofs Proofs.MergeProofs Proofs.TokenProofs Proofs.AssembleProofs Proofs.RenderProofs Proofs.ReconcileProofs Proofs.CombinedProofs.
+     Proofs.DifflibProofs Proofs.MergeProofs Proofs.TokenProofs Proofs.AssembleProofs Proofs.RenderProofs Proofs.ReconcileProofs Proofs.CombinedProofs Proofs.TextProofs Proofs.ViewTextProofs Proofs.CombinedTextProofs.
 Import ListNotations.
 Open Scope N_scope.
 
@@ -70,6 +70,29 @@ Theorem C02_combined_conserves : forall old new ops,
   exists out, assemble_diff MCombined old new ops = flat out /\ tags_ok out /\
               Permutation (groups out) (new_groups_of old new ops ++ del_groups_of old new ops).
 Proof. exact combined_conserves. Qed.
+
+(* stated on the TEXT, for all element trees, rule sets and caps: the text of the combined view is the text of its
+   groups (everything between groups is a tag); the groups are the new page's groups (inserted or unchanged) and the
+   deleted groups, each exactly once; the new page's groups spell, in page order, exactly the text of the new page;
+   the deleted groups spell, in page order, exactly the text of the deleted token runs of the old page, and each
+   carries the deletion marker.  So every piece of text of the new page is present outside deletion markers, every
+   deleted piece of the old page inside one, and the view has no text that is in neither page. *)
+Theorem C02_grouping_keeps_text : forall chunks tt,
+  groups_text (groups (merge_change_groups chunks tt)) = chunks_text chunks.
+Proof. exact grouping_keeps_text. Qed.
+
+Theorem C02_combined_text : forall old_root new_root rules cap,
+  let old := prepare old_root cap in
+  let new := prepare new_root cap in
+  let ops := token_opcodes rules old new in
+  exists out,
+    assemble_diff MCombined old new ops = ReconcileProofs.flat out /\
+    chunks_text (ReconcileProofs.flat out) = groups_text (groups out) /\
+    Permutation (groups out) (new_groups_of old new ops ++ del_groups_of old new ops) /\
+    groups_text (new_groups_of old new ops) = page_shown_text new_root /\
+    groups_text (del_groups_of old new ops) = deleted_text old ops /\
+    Forall del_group (del_groups_of old new ops).
+Proof. exact combined_text. Qed.
 
 (* the hypotheses of the reconciliation theorem are met by what the grouping produces *)
 Theorem C02_grouping_meets_hypotheses : forall chunks_i chunks_d,
